@@ -74,17 +74,21 @@ fn formats_of(kind: &str) -> &'static [&'static str] {
 
 fn wants_of(kind: &str, existing: bool) -> &'static [&'static str] {
     match (walk::family(kind).unwrap_or(""), existing) {
-        ("bmff", true) => &["pre", "pre", "c2pa-last", "pre", "", "co64", "iloc"],
-        ("bmff", false) => &["", "co64", "stco", "iloc", "mdat-largesize"],
+        ("bmff", true) if kind == "heic" || kind == "avif" => &["pre", "pre", "c2pa-last", "pre", "", "co64", "iloc v1", "iloc v2", "base4", "base8"],
+        ("bmff", false) if kind == "heic" || kind == "avif" => &["", "co64", "stco", "iloc v0", "iloc v1", "iloc v2", "base4", "base8", "mdat-largesize"],
+        ("bmff", true) => &["pre", "pre", "c2pa-last", "pre", "", "co64", "stco"],
+        ("bmff", false) => &["", "co64", "stco", "mdat-largesize", "mdat-size0"],
         ("tiff", true) => &["", "pre", "3 page", "2 page", "c2pa-own-ifd"],
         ("tiff", false) => &["", "3 page", "2 page"],
         ("riff", _) if kind == "avi" => &["AVIX", "AVIX", ""],
         ("svg", _) => &["", "bom", "metadata"],
-        ("gif", _) => &["", "87a", "plain-text", "xmp"],
+        ("gif", true) => &["", "plain-text", "xmp", "trailing"],
+        ("gif", false) => &["", "87a", "plain-text", "87a", "xmp"],
         ("mp3", _) => &["", "id3v2.3", "id3v2.4", "id3v1"],
         ("flac", _) => &["", "id3v2"],
         ("jpeg", _) => &["", "restart", "second-image", "trailing", "progressive"],
-        ("png", _) => &["", "trailing", "c2pa-before-IHDR"],
+        ("png", true) => &["", "trailing", "c2pa-before-IHDR", "c2pa-before-IEND"],
+        ("png", false) => &["", "trailing"],
         ("jxl", _) => &["", "size0-last", "jxlp"],
         _ => &[""],
     }
@@ -189,7 +193,20 @@ fn base_name(name: &str) -> &str {
     name.strip_suffix("!oob").unwrap_or(name)
 }
 
-/// Names of the BMFF offset-table entries of `a` that address bytes located before its C2PA box.
+/// Key of an offset-table entry: the chunk-offset entry itself, or the iloc item it belongs to (a base offset
+/// that a wrong shift turns into 0 changes how the item's extents are named, so items are compared as a whole).
+fn ref_key(name: &str) -> String {
+    let n = base_name(name);
+    match n.find("/iloc/item") {
+        Some(i) => {
+            let id: String = n[i + 10..].chars().take_while(|c| c.is_ascii_digit()).collect();
+            format!("{}/iloc/item{}", &n[..i], id)
+        }
+        None => n.to_string(),
+    }
+}
+
+/// Keys of the BMFF offset-table entries of `a` that address bytes located before its C2PA box.
 fn bmff_refs_before(kind: &str, a: &[u8]) -> BTreeSet<String> {
     let mut out = BTreeSet::new();
     if walk::family(kind) != Some("bmff") {
@@ -199,7 +216,7 @@ fn bmff_refs_before(kind: &str, a: &[u8]) -> BTreeSet<String> {
     if let Ok(refs) = walk::bmff_offset_refs(a) {
         for r in refs {
             if r.target < p as u64 {
-                out.insert(r.name);
+                out.insert(ref_key(&r.name));
             }
         }
     }
@@ -234,15 +251,24 @@ fn compare(kind: &str, format: &str, a: &[u8], b: &[u8]) -> Result<Vec<(String, 
     if fam == "bmff" {
         let before = bmff_refs_before(kind, a);
         if !before.is_empty() {
-            let part = |c: &Content| c.iter().filter(|e| is_deref(&e.0) && before.contains(base_name(&e.0))).map(|e| (base_name(&e.0).to_string(), e.1.clone())).collect::<Vec<_>>();
+            let part = |c: &Content| c.iter().filter(|e| is_deref(&e.0) && before.contains(&ref_key(&e.0))).map(|e| (base_name(&e.0).to_string(), e.1.clone())).collect::<Vec<_>>();
             let (pa, pb) = (part(&ca), part(&cb));
             if pa != pb {
                 let i = pa.iter().zip(pb.iter()).position(|(x, y)| x != y).unwrap_or(0);
+                let name = pa.get(i).map(|x| x.0.clone()).unwrap_or_default();
+                let val = |x: &[u8]| walk::bmff_offset_refs(x).ok().and_then(|r| r.into_iter().find(|r| r.name == name).map(|r| r.target.to_string())).unwrap_or_else(|| "?".into());
                 classes.push((
                     format!("C09:bmff-offsets-before-c2pa:{kind}"),
-                    format!("{} of {} offset entries addressing data in front of the C2PA box no longer address the same bytes, e.g. {}", pa.iter().zip(pb.iter()).filter(|(x, y)| x != y).count(), pa.len(), pa.get(i).map(|x| x.0.as_str()).unwrap_or("?")),
+                    format!(
+                        "{} of {} offset entries addressing data in front of the C2PA box (at {}) no longer address the same bytes, e.g. {name}: {} -> {}",
+                        pa.iter().zip(pb.iter()).filter(|(x, y)| x != y).count() + pa.len().saturating_sub(pb.len()),
+                        pa.len(),
+                        first_manifest_start(kind, a).unwrap_or(0),
+                        val(a),
+                        val(b)
+                    ),
                 ));
-                let pred = |n: &str| is_deref(n) && before.contains(base_name(n));
+                let pred = |n: &str| is_deref(n) && before.contains(&ref_key(n));
                 drop(&mut ca, &pred);
                 drop(&mut cb, &pred);
             }
@@ -331,6 +357,31 @@ impl Findings {
             Some(f) => Err(f),
             None => Ok(()),
         }
+    }
+}
+
+/// `C09_DUMP=1`: keep the asset bytes of failing / rejected cases under /verif/work/C09 (debugging aid).
+fn dump(c: &Case, a: &[u8], tag: &str) {
+    if std::env::var("C09_DUMP").is_ok() {
+        let dir = vh::core::verif_root().join("work").join("C09");
+        let _ = std::fs::create_dir_all(&dir);
+        let _ = std::fs::write(dir.join(format!("{tag}-{}-{:016x}.bin", c.kind, vh::digest(c))), a);
+    }
+}
+
+static MKREG: std::sync::Mutex<std::collections::BTreeMap<String, (usize, serde_json::Value)>> = std::sync::Mutex::new(std::collections::BTreeMap::new());
+
+/// `C09_MKREG=1`: remember, per signature, the failing case with the smallest asset (explicit bytes) so that
+/// regression files with concrete inputs can be written (development aid, see `main`).
+fn mkreg(check: &str, c: &Case, a: &[u8], f: &Fail) {
+    if std::env::var("C09_MKREG").is_err() {
+        return;
+    }
+    let mut g = MKREG.lock().unwrap();
+    let better = g.get(&f.signature).map(|(n, _)| a.len() < *n).unwrap_or(true);
+    if better {
+        let case = Case { asset_hex: Some(hex::encode(a)), ..c.clone() };
+        g.insert(f.signature.clone(), (a.len(), json!({"check": check, "signature": f.signature, "what": f.what, "case": case})));
     }
 }
 
@@ -480,7 +531,8 @@ fn judge(run: &Run, c: &Case) -> CaseResult {
         Ok(Err(e)) => {
             // an error is not a content change (whether the write may fail is C07's subject)
             run.count(&format!("{kind}:write:err"));
-            run.note(format!("write error {kind} [{}]: {e:?}", asset.desc));
+            run.note(format!("write error {kind} [{}]: {e:?} :: {c:?}", asset.desc));
+            dump(c, a, "write-err");
             None
         }
         Ok(Ok(mut w)) => {
@@ -556,7 +608,7 @@ fn judge(run: &Run, c: &Case) -> CaseResult {
     }
     // ---- remove on the written asset
     if let Some(w) = &w {
-        let known_after_write = fam == "bmff" && !bmff_refs_before(kind, w).is_empty();
+        let known_after_write = known_bmff_layout; // the write keeps the top-level box order
         match vh::catch(|| c2pa::verif_hooks::remove_manifest(fmt, w)) {
             Err(p) => {
                 run.count(&format!("{kind}:remove-written:panic"));
@@ -590,11 +642,22 @@ fn judge(run: &Run, c: &Case) -> CaseResult {
                             let still_a = walk::manifest_spans(kind, ra).map(|v| !v.is_empty()).unwrap_or(false);
                             let i = rw.iter().zip(ra.iter()).position(|(x, y)| x != y).unwrap_or(rw.len().min(ra.len()));
                             let unit = walk::walk(kind, &rw).ok().and_then(|u| u.into_iter().find(|u| u.start <= i && i < u.start + u.len).map(|u| u.kind)).unwrap_or_else(|| "?".into());
-                            let what = format!("remove(write(A)) has {} bytes, remove(A) has {} bytes; first difference at offset {i} (unit {unit} of remove(write(A))) [{}]", rw.len(), ra.len(), asset.desc);
+                            let ex = |v: &[u8]| {
+                                let e = &v[i.min(v.len())..(i + 24).min(v.len())];
+                                if fam == "svg" { format!("{:?}", String::from_utf8_lossy(e)) } else { hex::encode(e) }
+                            };
+                            let what = format!("remove(write(A)) has {} bytes, remove(A) has {} bytes; first difference at offset {i} (unit {unit} of remove(write(A))): {} vs {} [{}]", rw.len(), ra.len(), ex(&rw), ex(ra), asset.desc);
+                            const MD: &str = "<metadata></metadata>";
+                            const NS: &str = " xmlns:c2pa=\"http://c2pa.org/manifest\"";
+                            let store_left = vh::sdk::find_sub(&rw, &store).is_some();
                             if still && !still_a {
                                 fnd.push(format!("C09:remove-keeps-manifest:{kind}"), format!("the store written is still embedded after removal; {what}"));
                             } else if still && still_a {
                                 fnd.push(format!("C09:remove-keeps-manifest:{kind}"), format!("removal leaves a store in both assets and they differ; {what}"));
+                            } else if store_left {
+                                fnd.push(format!("C09:remove-leaves-store-bytes:{kind}"), format!("the {} store bytes written are still present verbatim (unreferenced) after removal; {what}", store.len()));
+                            } else if fam == "svg" && (String::from_utf8_lossy(&rw).replacen(NS, "", 1).as_bytes() == &ra[..] || String::from_utf8_lossy(&rw).replacen(NS, "", 1).replacen(MD, "", 1).as_bytes() == &ra[..]) {
+                                fnd.push("C09:remove-leaves-scaffold:svg", format!("the xmlns:c2pa declaration (and the empty <metadata> element) added by embedding stay in the file after removal; {what}"));
                             } else {
                                 fnd.push(format!("C09:remove-bytes-differ:{kind}"), what);
                             }
@@ -603,6 +666,9 @@ fn judge(run: &Run, c: &Case) -> CaseResult {
                 }
             }
         }
+    }
+    for f in &fnd.0 {
+        mkreg(&if c.variant.is_empty() { format!("embed_remove:{kind}") } else { "variants".to_string() }, c, a, f);
     }
     if survey() {
         for f in &fnd.0 {
@@ -670,7 +736,7 @@ fn main() {
         run.note(format!("VERIF_SELFTEST={} — the SDK's output is corrupted on purpose", selftest()));
     }
 
-    let per_kind: u32 = run.scale(50, 2000);
+    let per_kind: u32 = run.scale(150, 2000);
     for kind in assets::KINDS {
         let kind: &'static str = kind;
         let n = if kind == "avi" { per_kind * 2 } else { per_kind };
@@ -698,5 +764,13 @@ fn main() {
     }
     run.drive_enum_par("variants", vcases, run.scale(4, 16), |c| judge(&run, c));
     run.extra("kinds", json!(assets::KINDS));
+    if std::env::var("C09_MKREG").is_ok() {
+        let dir = vh::core::verif_root().join("work").join("C09").join("mkreg");
+        let _ = std::fs::create_dir_all(&dir);
+        for (sig, (_, v)) in MKREG.lock().unwrap().iter() {
+            let name: String = sig.chars().map(|ch| if ch.is_ascii_alphanumeric() || ch == '-' || ch == '.' { ch } else { '_' }).collect();
+            let _ = std::fs::write(dir.join(format!("reg-{name}.json")), serde_json::to_string_pretty(v).unwrap());
+        }
+    }
     run.finish();
 }
